@@ -251,7 +251,7 @@ def oracle(n, e):
     I, J, K = np.array(list(itertools.combinations(range(N), 3))).T
     A = np.stack([n[I], n[J], n[K]], axis=1)
     det = np.linalg.det(A)
-    ok = np.abs(det) > 1e-8
+    ok = np.abs(det) > 1e-7
     A, I, J, K = A[ok], I[ok], J[ok], K[ok]
     b = np.stack([e[I], e[J], e[K]], axis=1)
     X = np.linalg.solve(A, b[..., None])[..., 0]
@@ -259,7 +259,7 @@ def oracle(n, e):
     X = X[(X @ n.T - e).max(axis=1) <= 1e-9 * scale]
     pts = np.empty((0, 3))
     for x in X:
-        if len(pts) == 0 or np.min(np.linalg.norm(pts - x, axis=1)) > 1e-7 * scale:
+        if len(pts) == 0 or np.min(np.linalg.norm(pts - x, axis=1)) > 1e-8 * scale:      # merges only numerically identical points (see MIN_SEP)
             pts = np.vstack([pts, x])
     on = np.abs(pts @ n.T - e) <= 1e-8 * scale
     areas = np.zeros(N)
@@ -439,7 +439,31 @@ def generic_case(rng, kmax):
     return n, e
 
 
-MIN_SEP = 1e-3      # generic domain: distinct polytope vertices further apart than this (x largest energy); see ctx.notes
+MIN_SEP = 1e-4      # generic domain: distinct polytope vertices further apart than this (x largest energy); see ctx.notes
+
+
+def scale_sweep(rng):
+    """The same shapes with all energies multiplied by 10^k: the statement (and its scaling clause) has no preferred length unit."""
+    cube = unit_rows([[1, 0, 0], [-1, 0, 0], [0, 1, 0], [0, -1, 0], [0, 0, 1], [0, 0, -1]])
+    a = np.arange(6) * np.pi / 3
+    prism = np.vstack([np.c_[np.cos(a), np.sin(a), 0 * a], [[0, 0, 1], [0, 0, -1]]])
+    while True:
+        gn, ge = generic_case(rng, 8)
+        if min_separation(oracle(gn, ge)[0]) > 1e-2 * ge.max():
+            break
+    shapes = [("cube", cube, np.ones(6)), ("box", cube, np.array([1, 1.5, 1.2, 1.2, 2, 1.0])), ("hexagonal prism", prism, np.r_[np.ones(6), [1.3, 1.3]]),
+              ("seeded generic set", gn, ge / ge.max())]
+    fails, evals, distinct = {}, 0, 0
+    first_bad = None
+    for k in (0, 1, 2, 3, 4, 5, 6, -1, -2, -3, -4, -5, -6, -7):
+        for name, n, e in shapes:
+            bad, ev = native_clauses(n, e * 10.0 ** k, 2.5)
+            evals += ev
+            distinct += 1
+            if bad and first_bad is None:
+                first_bad = {"input": {"kind": f"{name}, energies x 1e{k}", "normals": np.asarray(n).tolist(), "energies": (e * 10.0 ** k).tolist(), "scale": 2.5},
+                             "observed": {"failed_clauses": bad, "note": "the same shape with energies of order 1 satisfies every clause"}}
+    return first_bad, evals, distinct
 
 
 def native_run(ctx):
@@ -472,8 +496,9 @@ def native_run(ctx):
         ddistinct += 1
         for k, obs in bad.items():
             dfails.setdefault(k, {"input": {"kind": name, "normals": np.asarray(n).tolist(), "energies": np.asarray(e).tolist(), "scale": 2.5}, "observed": obs})
+    sweep = scale_sweep(rng)
     return {"fails": fails, "evals": evals, "distinct": distinct, "skipped": skipped, "n_generic": n_generic, "dfails": dfails, "devals": devals,
-            "ddistinct": ddistinct, "sample": sample}
+            "ddistinct": ddistinct, "sample": sample, "sweep": sweep}
 
 
 # =====================================================================================================================
@@ -492,7 +517,9 @@ def build(ctx):
         "B only (bounded run-time contract on the real constructor against an independent, qhull-free half-space intersection): closed mesh, "
         "outward-consistent triangles, volume and vertex set equal to the independent intersection, polygon ordering / pruning (winding_order_ccw sorts by "
         "arctan2 and prune_degenerate_points builds a data-dependent mask: outside the symbolic subset, demoted to B), arbitrary hull combinatorics, "
-        "scaling with the real qhull.  The P clauses are re-evaluated natively in B as well.")
+        "scaling with the real qhull, and invariance under a change of length unit (bounded/scale_sweep: energies * 10^k, k = -7..6).  The P clauses are re-evaluated "
+        "natively in B as well.  Equalities are first evaluated exactly at rational facet sets satisfying every hypothesis (a differing value is a refutation whose "
+        "model is replayed on the real constructor), then certified.")
     ctx.assumptions += [
         "floats are reals",
         "qhull / scipy.spatial.ConvexHull (A): returns triangular simplices such that no simplex plane contains the origin and every input point is on the origin's "
@@ -502,8 +529,9 @@ def build(ctx):
         "combinatorics stand for every simplex row",
         "facet normals have unit length and energies are positive (the statement's domain)",
     ]
-    ctx.notes.append("B domain is restricted to polytopes whose distinct vertices are further apart than 1e-3 x the largest energy: prune_degenerate_points merges "
-                     "points closer than an ABSOLUTE 1e-5, so shapes with shorter edges (or shapes scaled down to that size) are outside what the code resolves.")
+    ctx.notes.append("The random generic domain is restricted to polytopes whose distinct vertices are further apart than 1e-4 x the largest energy (energies >= 0.5 there): "
+                     "prune_degenerate_points merges points closer than an ABSOLUTE 1e-5.  The scale dependence this threshold causes is isolated in the deterministic obligation "
+                     "bounded/scale_sweep (case key absolute_prune_threshold) instead of surfacing as a seed-dependent failure of the random stand-in.")
     F = lambda nme: ctx.fn(MOD, nme)
     f_init, f_dual, f_hull, f_ext, f_fix = [F("WulffConstruction." + x) for x in
                                             ("__init__", "_populate_duals", "_construct_dual_space_hull", "_extract_wulff_from_dual_mesh", "_fix_wulff_mesh")]
@@ -542,7 +570,10 @@ def build(ctx):
                     "observed": f"clauses {keys} hold natively on {nat['distinct']} generic and {nat['ddistinct']} degenerate facet sets"}
         return replay
 
+    # NB: obligations whose goal is a concrete truth value (shape of the result, membership lists, fan indices, data flow) are registered without
+    # hypotheses: the function has a single feasible path there and the checked value does not depend on the symbolic geometry.
     hyp_cache = {}
+    cert_budget = {}
 
     def prove_eq(ident, H, lhs, rhs, clause, keys, fn, points, var_subst):
         """Equality obligation.  First exact evaluation at rational points that satisfy every hypothesis: a point where the two sides differ
@@ -550,9 +581,9 @@ def build(ctx):
         and only then the SMT back ends."""
         for pi, (model, subst) in enumerate(points):
             key = (id(H), len(H), pi)
-            if key not in hyp_cache:
-                hyp_cache[key] = all(eval_term(h, subst) is True for h in H if z3.is_expr(h)) and all(h is not False for h in H)
-            if not hyp_cache[key]:
+            if key not in hyp_cache:           # the list itself is kept in the cache entry so that its id cannot be reused by another hypothesis list
+                hyp_cache[key] = (H, all(eval_term(h, subst) is True for h in H if z3.is_expr(h)) and all(h is not False for h in H))
+            if not hyp_cache[key][1]:
                 continue
             a, b = eval_term(lhs, subst), eval_term(rhs, subst)
             if isinstance(a, Fraction) and isinstance(b, Fraction) and a != b:
@@ -561,7 +592,15 @@ def build(ctx):
                 r.model = dict(model)
                 r.why = f"lhs = {a} but rhs = {b}"
                 return r
-        return ctx.prove(ident, H, lhs == rhs, clause=clause, algebra=True, replay=replay_for(*keys), fn=fn)
+        # on the unchanged tree every identity below has a certificate; the SMT fall-back (short budgets) only matters on a changed tree, and so does the
+        # budget for FAILED certificate searches (a false identity can cost the search many seconds; once 25 s are spent on one function's obligations the
+        # rest of that function's identities go straight to SMT)
+        t0 = time.time()
+        grp = ident.split("/")[0]
+        r = ctx.prove(ident, H, lhs == rhs, clause=clause, algebra=cert_budget.get(grp, 25.0) > 0, replay=replay_for(*keys), fn=fn, timeout_ms=4000, cvc5_timeout_s=4)
+        if r.verdict != "proved":
+            cert_budget[grp] = cert_budget.get(grp, 25.0) - (time.time() - t0)
+        return r
 
     def sign_lemma(ident):
         X, Tt, O, E = z3.Reals("X T O E")
@@ -613,7 +652,7 @@ def build(ctx):
             """The constructor end to end (ordering step under a skip contract): duals, vertex on its three facets, membership, dual scaling."""
             res = I.explore(lambda I2, a, kw: I2.instantiate(WC, [farr(nv), farr(ev)], {}), pre=PRE)
             if len(res) != 1 or res[0].kind != "return":
-                ctx.prove(f"{lab}.__init__/{tag}/returns", res[0].pc if res else [], z3.BoolVal(False), clause="the constructor returns normally on a bounded facet set",
+                ctx.prove(f"{lab}.__init__/{tag}/returns", [], z3.BoolVal(False), clause="the constructor returns normally on a bounded facet set",
                           replay=replay_for("constructs"), fn=f_init)
                 return
             r = res[0]
@@ -625,7 +664,7 @@ def build(ctx):
                     prove_eq(f"{lab}._populate_duals/ensures/dual/{tag}/d{i}{k}", H, D[i, k] * ev[i], nv[i][k], "dual point d_i = n_i / e_i", ("inside", "on_three", "vertex_set"),
                              f_dual, points, None)
             shape_ok = V.shape == (len(simplices), 3)
-            ctx.prove(f"{lab}._extract_wulff_from_dual_mesh/ensures/one_vertex_per_simplex/{tag}", H, z3.BoolVal(bool(shape_ok)),
+            ctx.prove(f"{lab}._extract_wulff_from_dual_mesh/ensures/one_vertex_per_simplex/{tag}", [], z3.BoolVal(bool(shape_ok)),
                       clause="one vertex (a 3-vector) per dual simplex, in simplex order", replay=replay_for("vertex_set", "on_three"), fn=f_ext)
             if shape_ok:
                 for si, sx in enumerate(simplices):
@@ -633,7 +672,7 @@ def build(ctx):
                         prove_eq(f"{lab}.__init__/ensures/vertex.on_three_facets/{tag}/s{si}f{t_}", H, dot3(nv[t_], list(V[si])), ev[t_],
                                  "the vertex of dual simplex (a,b,c) satisfies n_t.v = e_t for t in {a,b,c} (through the whole constructor)", ("on_three", "inside", "vertex_set"),
                                  f_ext, points, None)
-            ctx.prove(f"{lab}._extract_wulff_from_dual_mesh/ensures/facets.membership/{tag}", H, z3.BoolVal(bool(membership_ok(w.fields.get("wulff_facets")))),
+            ctx.prove(f"{lab}._extract_wulff_from_dual_mesh/ensures/facets.membership/{tag}", [], z3.BoolVal(bool(membership_ok(w.fields.get("wulff_facets")))),
                       clause="facets[f] lists exactly the dual simplices containing f, in simplex order (a facet in no simplex gets the empty list); so every vertex is listed on >= 3 facets",
                       replay=replay_for("membership", "facet_lists", "closed"), fn=f_ext)
             if with_scaling:
@@ -645,7 +684,7 @@ def build(ctx):
                             prove_eq(f"{lab}._populate_duals/ensures/scaling.dual/{tag}/d{i}{k}", list(H) + list(res2[0].pc), D2[i, k] * s, D[i, k],
                                      "energies * s (s > 0) give dual points / s", ("scaling",), f_dual, points, None)
                 else:
-                    ctx.prove(f"{lab}.__init__/ensures/scaling/{tag}/returns", PRE, z3.BoolVal(False), clause="the constructor returns on scaled energies", replay=replay_for("scaling"), fn=f_init)
+                    ctx.prove(f"{lab}.__init__/ensures/scaling/{tag}/returns", [], z3.BoolVal(False), clause="the constructor returns on scaled energies", replay=replay_for("scaling"), fn=f_init)
         ctx.attempt(f"{lab}.__init__/{tag}", whole, replay=replay_for("constructs"), fn=f_init)
 
         def duals_safety():
@@ -664,13 +703,13 @@ def build(ctx):
                 return I.explore(th, pre=PRE + DUAL + [s > 0])
             res = run(ev, dv)
             if len(res) != 1 or res[0].kind != "return" or res[0].value.fields["wulff_vertices"].shape != (len(simplices), 3):
-                ctx.prove(f"{lab}._extract_wulff_from_dual_mesh/{tag}/returns", res[0].pc if res else [], z3.BoolVal(False), clause="returns one vertex per simplex",
+                ctx.prove(f"{lab}._extract_wulff_from_dual_mesh/{tag}/returns", [], z3.BoolVal(False), clause="returns one vertex per simplex",
                           replay=replay_for("constructs", "vertex_set"), fn=f_ext)
                 return
             r = res[0]
             H = r.pc
             V = r.value.fields["wulff_vertices"].data
-            ctx.prove(f"{lab}._extract_wulff_from_dual_mesh/ensures/facets.membership/{tag}/modular", H, z3.BoolVal(bool(membership_ok(r.value.fields.get("wulff_facets")))),
+            ctx.prove(f"{lab}._extract_wulff_from_dual_mesh/ensures/facets.membership/{tag}/modular", [], z3.BoolVal(bool(membership_ok(r.value.fields.get("wulff_facets")))),
                       clause="facets[f] lists exactly the dual simplices containing f", replay=replay_for("membership", "facet_lists", "closed"), fn=f_ext)
             for si, sx in enumerate(simplices):
                 v = list(V[si])
@@ -724,7 +763,7 @@ def build(ctx):
                             prove_eq(f"{lab}._extract_wulff_from_dual_mesh/ensures/scaling/{tag}/s{si}k{k}", list(H) + list(res2[0].pc), V2[si, k], s * V[si, k],
                                      "energies * s and dual points / s (s > 0, same hull combinatorics) give vertices * s", ("scaling",), f_ext, points, None)
                 else:
-                    ctx.prove(f"{lab}._extract_wulff_from_dual_mesh/ensures/scaling/{tag}/returns", PRE, z3.BoolVal(False), clause="returns on scaled input",
+                    ctx.prove(f"{lab}._extract_wulff_from_dual_mesh/ensures/scaling/{tag}/returns", [], z3.BoolVal(False), clause="returns on scaled input",
                               replay=replay_for("scaling"), fn=f_ext)
         ctx.attempt(f"{lab}._extract_wulff_from_dual_mesh/{tag}", modular, replay=replay_for("constructs"), fn=f_ext)
 
@@ -759,11 +798,11 @@ def build(ctx):
         ok_f = list(fidx) == exp_f if isinstance(fidx, list) else False
         ok_o = isinstance(ordered, list) and len(ordered) == len(lists) and all(len(a) == len(b) and all(same(x, y) for x, y in zip(a, b)) for a, b in zip(ordered, lists))
         H = res[0].pc
-        ctx.prove(lab + "/triangles", H, z3.BoolVal(bool(ok_t)), clause="a polygon (v0..v_{N-1}) contributes exactly the triangles (v0, v_k, v_{k+1}), 1 <= k <= N-2, in facet order; "
+        ctx.prove(lab + "/triangles", [], z3.BoolVal(bool(ok_t)), clause="a polygon (v0..v_{N-1}) contributes exactly the triangles (v0, v_k, v_{k+1}), 1 <= k <= N-2, in facet order; "
                   f"empty and 2-vertex facets contribute none (sizes {sorted(set(sizes))})", replay=replay_for("closed", "outward", "volume", "facet_lists"), fn=f_tri)
-        ctx.prove(lab + "/triangle_facet", H, z3.BoolVal(bool(ok_f)), clause="facet_indices[t] is the facet whose polygon produced triangle t",
+        ctx.prove(lab + "/triangle_facet", [], z3.BoolVal(bool(ok_f)), clause="facet_indices[t] is the facet whose polygon produced triangle t",
                   replay=replay_for("outward", "facet_lists"), fn=f_tri)
-        ctx.prove(lab + "/ordered_passthrough", H, z3.BoolVal(bool(ok_o)), clause="the ordered facets are returned unchanged as the first result", replay=replay_for("facet_lists"), fn=f_tri)
+        ctx.prove(lab + "/ordered_passthrough", [], z3.BoolVal(bool(ok_o)), clause="the ordered facets are returned unchanged as the first result", replay=replay_for("facet_lists"), fn=f_tri)
     ctx.attempt("wulff.order_and_triangulate_polygons/ensures/fan.indices", fan, fn=f_tri)
 
     # ---- P: _fix_wulff_mesh stores the three results where the rest of the class reads them ---------------------------------
@@ -791,7 +830,7 @@ def build(ctx):
                   and [str(x) for x in tr.flat()] == ["t0", "t1", "t2"] and isinstance(ti, NDArr) and [str(x) for x in ti.flat()] == ["ti0"])
             a = seen.get("args")
             ok = ok and a is not None and isinstance(a[0], NDArr) and a[0].shape == (1, 3) and a[1] == [[0]] and isinstance(a[2], NDArr) and str(a[2].flat()[2]) == "1"
-        ctx.prove("wulff.WulffConstruction._fix_wulff_mesh/ensures/dataflow", res[0].pc if res else [], z3.BoolVal(bool(ok)),
+        ctx.prove("wulff.WulffConstruction._fix_wulff_mesh/ensures/dataflow", [], z3.BoolVal(bool(ok)),
                   clause="calls order_and_triangulate_polygons(wulff_vertices, wulff_facets, facet_normals) and stores (ordered facets, triangles, triangle->facet) in "
                          "wulff_facets, wulff_triangles, wulff_triangle_indices", replay=replay_for("facet_lists", "outward", "closed"), fn=f_fix)
     ctx.attempt("wulff.WulffConstruction._fix_wulff_mesh/ensures/dataflow", fix, fn=f_fix)
@@ -847,4 +886,12 @@ def build(ctx):
                     "axis-aligned degenerate shapes: cubes, boxes, 3..12-gonal prisms (even/uneven energies), octahedron, rhombic dodecahedron, cuboctahedron, truncated cube / "
                     "octahedron, cube with cut-off, tangent and cutting {111} / {110} facets, {100}+{111}+{110}; plus seeded boxes / prisms / {100}+{111} with energies within a factor two; s = 2.5",
                     nat["devals"], nat["ddistinct"], pack(nat["dfails"]), rule="distinct named shapes; same clauses and tolerances (coincident vertices identified by position)")
+    sw_bad, sw_ev, sw_n = nat["sweep"]
+    ctx.add_bounded("wulff.WulffConstruction/bounded/scale_sweep",
+                    "cube, box, hexagonal prism and one seeded generic set with all energies multiplied by 10^k, k = -7..6 (the statement has no preferred unit of length; "
+                    "the scaling clause quantifies over every s > 0); same clauses, tolerances relative to the largest energy",
+                    sw_ev, sw_n, [] if sw_bad is None else [{"input": sw_bad["input"], "observed": sw_bad["observed"], "key": "absolute_prune_threshold",
+                                                             "clause": "the construction commutes with a change of length unit: energies * 10^k give the same shape * 10^k (constructor returns, closed "
+                                                                       "outward mesh, vertex set and volume of the half-space intersection)"}],
+                    rule="distinct (shape, k) pairs")
     ctx.notes.append(f"native stand-ins took {t_native:.1f}s")
